@@ -25,6 +25,8 @@ var coreStrings = []string{
 	`a|'`, `error|can't|fatal`, `x|',string,'`,
 	// accepted by identifier slots, still meaningful to SQL
 	`select`, `OR`, `a--b`, `x.y-z`, `sleep`, `x__1`,
+	// a number, then more (slots that take numbers)
+	`1 OR 1=1`, `500) OR (1=1`, `27`, `1e3; --`,
 }
 
 // extraStrings: the rest of the fixed corpus (thorough tier sees all of it at every position,
